@@ -26,7 +26,8 @@ use crate::{
     substream::Substream,
     transport::{
         manager::{
-            handle::InnerTransportManagerCommand, SupportedTransport, TransportManagerHandle,
+            handle::InnerTransportManagerCommand, verif_c13 as mgr, SupportedTransport,
+            TransportManagerHandle,
         },
         tcp, Endpoint,
     },
@@ -53,6 +54,12 @@ const UNIT: Duration = Duration::from_secs(10);
 const SETTLE: Duration = Duration::from_millis(1);
 const FOREVER: Duration = Duration::from_secs(10 * 365 * 24 * 3600);
 const PROTOCOL: &str = "/req/1";
+/// Capacity of the transport manager's command channel (as in `TransportManager::new`).
+const MGR_CHANNEL: usize = 256;
+/// Capacity of the event channel towards the user (`DEFAULT_CHANNEL_SIZE`).
+const EVENT_CHANNEL: usize = 4096;
+/// Peer named by the commands that clog the manager's command channel.
+const FILLER: u64 = 99;
 
 /// Numeric value of an id type whose field is private (`RequestId(7)` → 7).
 fn num<T: std::fmt::Debug>(id: &T) -> usize {
@@ -171,6 +178,7 @@ fn dial_error(e: &ImmediateDialError) -> &'static str {
         ImmediateDialError::AlreadyConnected => "already-connected",
         ImmediateDialError::ChannelClogged => "clogged",
         ImmediateDialError::TriedToDialSelf => "self",
+        ImmediateDialError::TaskClosed => "task-closed",
         _ => "other",
     }
 }
@@ -182,6 +190,10 @@ fn substream_error(e: &SubstreamError) -> &'static str {
         SubstreamError::PeerDoesNotExist(_) => "no-peer",
         SubstreamError::ReadFailure(_) => "read-failure",
         SubstreamError::NegotiationError(NegotiationError::Timeout) => "negotiation-timeout",
+        SubstreamError::NegotiationError(_) => "negotiation",
+        SubstreamError::IoError(_) => "io",
+        SubstreamError::YamuxError(..) => "yamux",
+        SubstreamError::WriteFailure(_) => "write-failure",
         _ => "other",
     }
 }
@@ -200,6 +212,17 @@ fn error_word(e: &RequestResponseError) -> String {
         RequestResponseError::NotConnected => "not-connected".into(),
         RequestResponseError::TooLargePayload => "too-large".into(),
         RequestResponseError::UnsupportedProtocol => "unsupported".into(),
+    }
+}
+
+/// `:fb<n>` if the substream was negotiated with fallback protocol `/req/fb<n>`.
+fn fallback_word(fallback: &Option<ProtocolName>) -> String {
+    match fallback {
+        None => String::new(),
+        Some(name) => match name.to_string().strip_prefix("/req/fb") {
+            Some(n) => format!(":fb{n}"),
+            None => format!(":fb?{name}"),
+        },
     }
 }
 
@@ -276,13 +299,20 @@ impl End {
 /// One in-memory yamux connection carrying one substream: the client's outbound stream and the
 /// receiver on which the server's matching inbound stream shows up once the client has written.
 async fn yamux_pair() -> (crate::yamux::Stream, UnboundedReceiver<crate::yamux::Stream>) {
+    let (stream, incoming, _) = yamux_pair_with_task().await;
+    (stream, incoming)
+}
+
+/// Same, also returning the task that drives the client side of the connection.
+async fn yamux_pair_with_task(
+) -> (crate::yamux::Stream, UnboundedReceiver<crate::yamux::Stream>, tokio::task::JoinHandle<()>) {
     let (a, b) = tokio::io::duplex(1 << 16);
     let mut client =
         crate::yamux::Connection::new(a.compat(), crate::yamux::Config::default(), crate::yamux::Mode::Client);
     let mut server =
         crate::yamux::Connection::new(b.compat(), crate::yamux::Config::default(), crate::yamux::Mode::Server);
     let stream = poll_fn(|cx| client.poll_new_outbound(cx)).await.expect("outbound stream");
-    tokio::spawn(async move {
+    let task = tokio::spawn(async move {
         while let Some(Ok(_)) = poll_fn(|cx| client.poll_next_inbound(cx)).await {}
     });
     let (tx, rx) = unbounded_channel();
@@ -291,7 +321,7 @@ async fn yamux_pair() -> (crate::yamux::Stream, UnboundedReceiver<crate::yamux::
             let _ = tx.send(s);
         }
     });
-    (stream, rx)
+    (stream, rx, task)
 }
 
 struct Conn {
@@ -313,7 +343,14 @@ struct Inbound {
 struct Inner {
     handle: RequestResponseHandle,
     tx: Sender<InnerTransportEvent>,
-    cmd_rx: Receiver<InnerTransportManagerCommand>,
+    /// command channel of the transport manager (`None`: the manager task is gone).
+    cmd_rx: Option<Receiver<InnerTransportManagerCommand>>,
+    /// sender used to clog that channel.
+    cmd_fill: Sender<InnerTransportManagerCommand>,
+    /// the manager does not read its commands (`mgr clog`).
+    hold_cmds: bool,
+    /// the transport manager's view of the peers, read by `TransportManagerHandle::dial`.
+    mgr_peers: mgr::Peers,
     codec: ProtocolCodec,
     conns: BTreeMap<(u64, u64), Conn>,
     /// `r<k>` → real request id.
@@ -332,6 +369,8 @@ struct Inner {
     responders: HashMap<usize, Responder>,
     /// far ends that are kept open but never read (`ev subopen r<k> noread`).
     unread: Vec<Responder>,
+    /// feedback channel of the `answer … feedback` being executed.
+    feedback: Option<futures::channel::oneshot::Receiver<()>>,
 }
 
 pub struct RrBox {
@@ -358,13 +397,39 @@ fn index(s: &str, prefix: char) -> Option<usize> {
     s.strip_prefix(prefix)?.parse().ok()
 }
 
+fn dial_options(mode: &str) -> Option<DialOptions> {
+    match mode {
+        "dial" => Some(DialOptions::Dial),
+        "reject" => Some(DialOptions::Reject),
+        _ => None,
+    }
+}
+
 impl Inner {
+    /// Name the request a send call returned (`r<k>`; `clogged` uses up the name as well).
+    fn sent(&mut self, result: crate::Result<RequestId>) -> String {
+        let k = self.sends.len();
+        match result {
+            Ok(id) => {
+                self.sends.push(Some(num(&id)));
+                self.names.insert(num(&id), format!("r{k}"));
+                format!("r{k}")
+            }
+            Err(_) => {
+                self.sends.push(None);
+                "clogged".into()
+            }
+        }
+    }
+
     fn create(max: usize, timeout: u32, inmax: Option<usize>) -> Inner {
         let local = peer(0);
-        let (cmd_tx, cmd_rx) = channel(4096);
+        let (cmd_tx, cmd_rx) = channel(MGR_CHANNEL);
+        let cmd_fill = cmd_tx.clone();
+        let mgr_peers = mgr::new_peers();
         let mut manager_handle = TransportManagerHandle::new(
             local,
-            Arc::new(Default::default()),
+            Arc::clone(&mgr_peers),
             cmd_tx,
             HashSet::from_iter([SupportedTransport::Tcp]),
             Default::default(),
@@ -376,22 +441,24 @@ impl Inner {
                 format!("/ip4/10.0.0.{i}/tcp/4444/p2p/{}", peer(i)).parse().expect("address");
             assert_eq!(manager_handle.add_known_address(&peer(i), std::iter::once(address)), 1);
         }
+        let mut builder = ConfigBuilder::new(ProtocolName::from(PROTOCOL))
+            .with_max_size(max)
+            .with_timeout(UNIT * timeout)
+            .with_fallback_names((1..=3).map(|n| ProtocolName::from(format!("/req/fb{n}"))).collect());
+        if let Some(n) = inmax {
+            builder = builder.with_max_concurrent_inbound_requests(n);
+        }
+        let (config, handle) = builder.build();
+        // registered like `Litep2p::new` does it
         let (service, tx) = TransportService::new(
             local,
-            ProtocolName::from(PROTOCOL),
-            Vec::new(),
+            config.protocol_name().clone(),
+            config.fallback_names.clone(),
             Arc::new(Default::default()),
             manager_handle,
             FOREVER,
             SubstreamKeepAlive::Yes,
         );
-        let mut builder = ConfigBuilder::new(ProtocolName::from(PROTOCOL))
-            .with_max_size(max)
-            .with_timeout(UNIT * timeout);
-        if let Some(n) = inmax {
-            builder = builder.with_max_concurrent_inbound_requests(n);
-        }
-        let (config, handle) = builder.build();
         let codec = config.codec.clone();
         let counter = Arc::clone(&config.next_request_id);
         SNAP.with(|s| *s.borrow_mut() = Snapshot::default());
@@ -399,7 +466,10 @@ impl Inner {
         Inner {
             handle,
             tx,
-            cmd_rx,
+            cmd_rx: Some(cmd_rx),
+            cmd_fill,
+            hold_cmds: false,
+            mgr_peers,
             codec,
             conns: BTreeMap::new(),
             sends: Vec::new(),
@@ -410,6 +480,7 @@ impl Inner {
             opens: HashMap::new(),
             responders: HashMap::new(),
             unread: Vec::new(),
+            feedback: None,
         }
     }
 
@@ -426,11 +497,16 @@ impl Inner {
     }
 
     /// Service calls made and events delivered since the last drain.
-    fn drain(&mut self) -> String {
+    fn drain(&mut self) -> (Vec<String>, Vec<String>) {
         let mut calls = Vec::new();
-        while let Ok(cmd) = self.cmd_rx.try_recv() {
-            if let InnerTransportManagerCommand::DialPeer { peer } = cmd {
-                calls.push(format!("dial:{}", Self::peer_name(&peer)));
+        if !self.hold_cmds {
+            while let Some(Ok(cmd)) = self.cmd_rx.as_mut().map(|rx| rx.try_recv()) {
+                if let InnerTransportManagerCommand::DialPeer { peer } = cmd {
+                    // peer 99 is the filler of `mgr clog`
+                    if peer_index(&peer) != Some(FILLER) {
+                        calls.push(format!("dial:{}", Self::peer_name(&peer)));
+                    }
+                }
             }
         }
         let mut opened = Vec::new();
@@ -453,18 +529,24 @@ impl Inner {
         let mut events = Vec::new();
         while let Some(Some(event)) = self.handle.next().now_or_never() {
             events.push(match event {
-                RequestResponseEvent::RequestReceived { peer, request_id, request, .. } => {
-                    format!("req:{}:{}:{}", self.name(num(&request_id)), Self::peer_name(&peer), show(&request))
-                }
-                RequestResponseEvent::ResponseReceived { request_id, response, .. } =>
-                    format!("resp:{}:{}", self.name(num(&request_id)), show(&response)),
+                RequestResponseEvent::RequestReceived { peer, request_id, request, fallback } => format!(
+                    "req:{}:{}:{}{}",
+                    self.name(num(&request_id)),
+                    Self::peer_name(&peer),
+                    show(&request),
+                    fallback_word(&fallback)
+                ),
+                RequestResponseEvent::ResponseReceived { request_id, response, fallback, .. } => format!(
+                    "resp:{}:{}{}",
+                    self.name(num(&request_id)),
+                    show(&response),
+                    fallback_word(&fallback)
+                ),
                 RequestResponseEvent::RequestFailed { request_id, error, .. } =>
                     format!("failed:{}:{}", self.name(num(&request_id)), error_word(&error)),
             });
         }
-        events.sort();
-        let j = |v: Vec<String>| if v.is_empty() { "-".to_string() } else { v.join(",") };
-        format!("{};{}", j(calls), j(events))
+        (calls, events)
     }
 
     fn snapshot() -> Snapshot {
@@ -517,54 +599,58 @@ impl Inner {
         let t: Vec<&str> = line.split_whitespace().collect();
         let n = |s: &str| s.parse::<usize>().ok();
         let res: String = match t.as_slice() {
-            ["send", p, len, fill, mode] => {
+            ["send", p, len, fill, mode, rest @ ..] if rest.is_empty() || rest == ["async"] => {
                 let (Some(p), Some(len), Some(fill)) = (n(p), n(len), n(fill)) else { return "bad-op".into() };
-                let options = match *mode {
-                    "dial" => DialOptions::Dial,
-                    "reject" => DialOptions::Reject,
-                    _ => return "bad-op".into(),
+                let Some(options) = dial_options(mode) else { return "bad-op".into() };
+                let result = if rest.is_empty() {
+                    self.handle.try_send_request(peer(p as u64), payload(len, fill), options)
+                } else {
+                    self.handle.send_request(peer(p as u64), payload(len, fill), options).await
                 };
-                let k = self.sends.len();
-                match self.handle.try_send_request(peer(p as u64), payload(len, fill), options) {
-                    Ok(id) => {
-                        self.sends.push(Some(num(&id)));
-                        self.names.insert(num(&id), format!("r{k}"));
-                        format!("r{k}")
-                    }
-                    Err(_) => {
-                        self.sends.push(None);
-                        "clogged".into()
-                    }
-                }
+                self.sent(result)
             }
-            ["sendfb", p, len, fill, mode, fbn, flen, ffill] => {
+            ["sendfb", p, len, fill, mode, fbn, flen, ffill, rest @ ..] if rest.is_empty() || rest == ["async"] => {
                 let (Some(p), Some(len), Some(fill), Some(fbn), Some(flen), Some(ffill)) =
                     (n(p), n(len), n(fill), n(fbn), n(flen), n(ffill))
                 else {
                     return "bad-op".into();
                 };
-                let options = match *mode {
-                    "dial" => DialOptions::Dial,
-                    "reject" => DialOptions::Reject,
-                    _ => return "bad-op".into(),
+                let Some(options) = dial_options(mode) else { return "bad-op".into() };
+                let fallback = (ProtocolName::from(format!("/req/fb{fbn}")), payload(flen, ffill));
+                let result = if rest.is_empty() {
+                    self.handle.try_send_request_with_fallback(peer(p as u64), payload(len, fill), fallback, options)
+                } else {
+                    self.handle
+                        .send_request_with_fallback(peer(p as u64), payload(len, fill), fallback, options)
+                        .await
                 };
-                let k = self.sends.len();
-                match self.handle.try_send_request_with_fallback(
-                    peer(p as u64),
-                    payload(len, fill),
-                    (ProtocolName::from(format!("/req/fb{fbn}")), payload(flen, ffill)),
-                    options,
-                ) {
-                    Ok(id) => {
-                        self.sends.push(Some(num(&id)));
-                        self.names.insert(num(&id), format!("r{k}"));
-                        format!("r{k}")
-                    }
-                    Err(_) => {
-                        self.sends.push(None);
-                        "clogged".into()
+                self.sent(result)
+            }
+            // `count` requests handed over back to back, before the protocol gets to run
+            ["burst", p, count, mode, rest @ ..] if rest.is_empty() || rest == ["fb"] => {
+                let (Some(p), Some(count)) = (n(p), n(count)) else { return "bad-op".into() };
+                if count > 10_000 || dial_options(mode).is_none() {
+                    return "bad-op".into();
+                }
+                let (mut ok, mut clogged) = (0usize, 0usize);
+                for j in 0..count {
+                    let options = dial_options(mode).expect("checked");
+                    let result = if rest.is_empty() {
+                        self.handle.try_send_request(peer(p as u64), payload(1, j), options)
+                    } else {
+                        self.handle.try_send_request_with_fallback(
+                            peer(p as u64),
+                            payload(1, j),
+                            (ProtocolName::from("/req/fb1"), payload(2, j)),
+                            options,
+                        )
+                    };
+                    match self.sent(result).as_str() {
+                        "clogged" => clogged += 1,
+                        _ => ok += 1,
                     }
                 }
+                format!("burst:ok={ok}:clogged={clogged}")
             }
             ["cancel", r] => match index(r, 'r').and_then(|k| self.sends.get(k).copied().flatten()) {
                 Some(id) => {
@@ -573,6 +659,33 @@ impl Inner {
                 }
                 None => "none".into(),
             },
+            ["mgr", "clog"] => {
+                // the transport manager stops reading its commands and the channel fills up
+                self.hold_cmds = true;
+                while self
+                    .cmd_fill
+                    .try_send(InnerTransportManagerCommand::DialPeer { peer: peer(FILLER) })
+                    .is_ok()
+                {}
+                "ok".into()
+            }
+            ["mgr", "unclog"] => {
+                self.hold_cmds = false;
+                "ok".into()
+            }
+            ["mgr", "gone"] => {
+                self.cmd_rx = None;
+                "ok".into()
+            }
+            ["mgr", p, view] => {
+                let Some(p) = n(p) else { return "bad-op".into() };
+                let address: Multiaddr =
+                    format!("/ip4/10.0.0.{}/tcp/4444/p2p/{}", p % 256, peer(p as u64)).parse().expect("address");
+                if !mgr::set_view(&self.mgr_peers, peer(p as u64), address, view) {
+                    return "bad-op".into();
+                }
+                "ok".into()
+            }
             ["ev", "established", p, c, rest @ ..] => {
                 let (Some(p), Some(c)) = (n(p), n(c)) else { return "bad-op".into() };
                 let (p, c) = (p as u64, c as u64);
@@ -640,7 +753,12 @@ impl Inner {
                 match sid.and_then(|sid| self.opens.remove(&sid).map(|o| (sid, o))) {
                     None => "none".into(),
                     Some((sid, (p, c, permit))) if *kind == "subopen" => {
-                        let (stream, incoming) = yamux_pair().await;
+                        let (stream, incoming, task) = yamux_pair_with_task().await;
+                        if rest.contains(&"broken") {
+                            // the connection under the substream is gone before the request is written
+                            task.abort();
+                            let _ = task.await;
+                        }
                         let io = tcp::Substream::new(stream.compat(), BandwidthSink::new(), None);
                         let substream =
                             Substream::new_tcp(peer(p), SubstreamId::from(sid), io, self.codec.clone());
@@ -659,7 +777,12 @@ impl Inner {
                                 opening_permit: permit,
                             })
                             .await;
-                        if rest.contains(&"noread") {
+                        if rest.contains(&"broken") {
+                            self.responders.remove(&k);
+                            drop(incoming);
+                            self.settle().await;
+                            "opened:broken".into()
+                        } else if rest.contains(&"noread") {
                             // the far end stays open but nobody ever reads it
                             self.responders.remove(&k);
                             self.unread.push(Responder { incoming, end: None });
@@ -680,6 +803,38 @@ impl Inner {
                                 ),
                             ),
                             Some("notconn") => SubstreamError::IoError(ErrorKind::NotConnected),
+                            Some("notconn-yamux") => SubstreamError::YamuxError(
+                                crate::yamux::ConnectionError::Io(ErrorKind::NotConnected.into()),
+                                Direction::Outbound(SubstreamId::from(sid)),
+                            ),
+                            Some("notconn-neg") =>
+                                SubstreamError::NegotiationError(NegotiationError::IoError(ErrorKind::NotConnected)),
+                            Some("notconn-ms") => SubstreamError::NegotiationError(
+                                NegotiationError::MultistreamSelectError(
+                                    crate::multistream_select::NegotiationError::ProtocolError(
+                                        crate::multistream_select::ProtocolError::IoError(
+                                            ErrorKind::NotConnected.into(),
+                                        ),
+                                    ),
+                                ),
+                            ),
+                            Some("reset") => SubstreamError::IoError(ErrorKind::ConnectionReset),
+                            Some("reset-yamux") => SubstreamError::YamuxError(
+                                crate::yamux::ConnectionError::Io(ErrorKind::ConnectionReset.into()),
+                                Direction::Outbound(SubstreamId::from(sid)),
+                            ),
+                            Some("reset-neg") =>
+                                SubstreamError::NegotiationError(NegotiationError::IoError(ErrorKind::ConnectionReset)),
+                            Some("reset-ms") => SubstreamError::NegotiationError(
+                                NegotiationError::MultistreamSelectError(
+                                    crate::multistream_select::NegotiationError::ProtocolError(
+                                        crate::multistream_select::ProtocolError::IoError(
+                                            ErrorKind::ConnectionReset.into(),
+                                        ),
+                                    ),
+                                ),
+                            ),
+                            Some("clogged") => SubstreamError::ChannelClogged,
                             Some("timeout") => SubstreamError::NegotiationError(NegotiationError::Timeout),
                             _ => SubstreamError::ConnectionClosed,
                         };
@@ -730,7 +885,10 @@ impl Inner {
             }
             ["inbound", p, len, fill, rest @ ..] => {
                 let (Some(p), Some(len), Some(fill)) = (n(p), n(len), n(fill)) else { return "bad-op".into() };
-                let hold = rest.first() == Some(&"hold");
+                let hold = rest.contains(&"hold");
+                // `fb=<n>`: the remote negotiated the substream with fallback protocol `n`
+                let negotiated =
+                    parse_kv(rest, "fb").and_then(n).map(|fbn| ProtocolName::from(format!("/req/fb{fbn}")));
                 let k = self.inbounds.len();
                 // the substream arrives over the peer's lowest-numbered connection, if any
                 let conn = self.conns.iter().find(|((q, _), _)| *q == p as u64).map(|((_, c), conn)| (*c, conn.tx.clone()));
@@ -760,7 +918,7 @@ impl Inner {
                             .send(InnerTransportEvent::SubstreamOpened {
                                 peer: peer(p as u64),
                                 protocol: ProtocolName::from(PROTOCOL),
-                                fallback: None,
+                                fallback: negotiated,
                                 direction: Direction::Inbound,
                                 connection_id: ConnectionId::from(c as usize),
                                 substream,
@@ -793,11 +951,17 @@ impl Inner {
                 }
                 None => "none".into(),
             },
-            ["answer", i, len, fill] => {
+            ["answer", i, len, fill, rest @ ..] if rest.is_empty() || rest == ["feedback"] => {
                 let (Some(k), Some(len), Some(fill)) = (index(i, 'i'), n(len), n(fill)) else { return "bad-op".into() };
                 match self.names.iter().find(|(_, v)| **v == format!("i{k}")).map(|(id, _)| *id) {
                     Some(id) => {
-                        self.handle.send_response(RequestId::from(id), payload(len, fill));
+                        if rest.is_empty() {
+                            self.handle.send_response(RequestId::from(id), payload(len, fill));
+                        } else {
+                            let (tx, rx) = futures::channel::oneshot::channel();
+                            self.handle.send_response_with_feedback(RequestId::from(id), payload(len, fill), tx);
+                            self.feedback = Some(rx);
+                        }
                         "ok".into()
                     }
                     None => "none".into(),
@@ -834,7 +998,31 @@ impl Inner {
         self.settle().await;
         // two rounds: reading a request to its end and handing it to the user are separate wake-ups
         self.settle().await;
-        let tail = self.drain();
+        // (reading the handle must not be cut short by tokio's cooperative budget; a protocol that filled the
+        // event channel is blocked in the middle of a handler and goes on once the user has read)
+        let (mut calls, mut events) = (Vec::new(), Vec::new());
+        loop {
+            let (c, e) = tokio::task::unconstrained(async { self.drain() }).await;
+            let full = e.len() >= EVENT_CHANNEL;
+            calls.extend(c);
+            events.extend(e);
+            if !full {
+                break;
+            }
+            self.settle().await;
+            self.settle().await;
+        }
+        events.sort();
+        let j = |v: Vec<String>| if v.is_empty() { "-".to_string() } else { v.join(",") };
+        let tail = format!("{};{}", j(calls), j(events));
+        let res = match self.feedback.take() {
+            None => res,
+            Some(mut rx) => match rx.try_recv() {
+                Ok(Some(())) => format!("{res}:feedback=sent"),
+                Ok(None) => format!("{res}:feedback=pending"),
+                Err(_) => format!("{res}:feedback=dropped"),
+            },
+        };
         let res = if let ["remote", ..] = t.as_slice() { res } else { self.with_remote(&t, res) };
         format!("{res};{tail}")
     }
